@@ -433,6 +433,19 @@ func roundTrip(c *Ctx, r *runner, rng *Rand, s rtSpec, model bool) {
 	} else {
 		c.Count("encoder-choices:outside-proved-fragment " + strings.Join(f, " "))
 	}
+	// encoder data path = model: the forward transforms of the model (Vp8lImport.forward_chain, with the
+	// transforms and their data recovered from the stream) applied to the cleaned source give exactly the
+	// residual image the encoder's tokens denote
+	if s.W*s.H <= 40*40 {
+		switch r.ask("fwd " + hx + " " + hex.EncodeToString(exp)) {
+		case "F 1":
+			c.Count("encoder-data-path:forward-chain(source)=residual-image")
+		case "F 0":
+			c.Count("encoder-data-path:DIFFERS-from-model-forward-chain " + tr.signature())
+		default:
+			c.Count("encoder-data-path:not-evaluated")
+		}
+	}
 	c.Case("dec "+tr.tag()+" "+hx, line)
 	c.Sample(map[string]any{"kind": "roundtrip", "spec": s, "bytes": len(file), "emitted": tr.signature()})
 }
